@@ -96,7 +96,7 @@ def boundary_shares(a_solid, th, box, m):
         for mp in reversed(maps):
             p = G.pushforward(mp, p, {kk: np.broadcast_to(vv, (len(p), 1)) for kk, vv in row.items()})
         p_all.append(p)
-        w_all.append(np.full(len(p), length / M))
+        w_all.append(np.full(len(p), length / len(p)))
     p = np.concatenate(p_all)
     w = np.concatenate(w_all)
     vals = {G.space_vars(a_solid)[0][0]: p}
